@@ -567,11 +567,17 @@ def run(check: core.Check) -> None:
         cases = core.emitted_json(res)
         limit = 4500
     else:
-        res = core.require_ok(core.run_tlc("AnnotationsEmit", "Annotations.thorough.cfg", coverage=True, timeout=3000), "Annotations exhaustive")
+        # -coverage slows TLC down several times: the vacuity check is made on the 3-form bound, the 4-form
+        # bound is then explored without it
+        cov = core.require_ok(core.run_tlc("Annotations", "Annotations.cov.cfg", coverage=True, timeout=1200), "Annotations coverage")
+        core.require_coverage(cov, ["PushLeaf", "ApplyUnary", "ApplyBinary", "ApplyTop", "Finish"], "Annotations")
+        check.add_tlc("coverage:Annotations.cov.cfg", cov)
+        res = core.require_ok(core.run_tlc("AnnotationsEmit", "Annotations.thorough.cfg", timeout=3000), "Annotations exhaustive")
         check.add_tlc("exhaustive+emit:Annotations.thorough.cfg", res)
         cases = core.emitted_json(res)
         limit = 45000
-    core.require_coverage(res, ["PushLeaf", "ApplyUnary", "ApplyBinary", "ApplyTop", "Finish"], "Annotations")
+    if quick:
+        core.require_coverage(res, ["PushLeaf", "ApplyUnary", "ApplyBinary", "ApplyTop", "Finish"], "Annotations")
     if not cases:
         raise core.MachineryError("TLC emitted no annotation expressions")
     _sensitivity("Annotations", "Annotations.strict.cfg", "AnnotationRoutesAgreeStrict")
@@ -596,8 +602,13 @@ def run(check: core.Check) -> None:
     cs = judge_annotations(check, sim_cases, "tlc-simulate")
     # ---------------- part B: def headers
     hcfg = "DefHeaders.quick.cfg" if quick else "DefHeaders.thorough.cfg"
-    hres = core.require_ok(core.run_tlc("DefHeadersEmit", hcfg, coverage=True, timeout=3000), "DefHeaders exhaustive")
-    core.require_coverage(hres, ["AddParam", "FinishHeader"], "DefHeaders")
+    if not quick:
+        hcov = core.require_ok(core.run_tlc("DefHeaders", "DefHeaders.cov.cfg", coverage=True, timeout=1200), "DefHeaders coverage")
+        core.require_coverage(hcov, ["AddParam", "FinishHeader"], "DefHeaders")
+        check.add_tlc("coverage:DefHeaders.cov.cfg", hcov)
+    hres = core.require_ok(core.run_tlc("DefHeadersEmit", hcfg, coverage=quick, timeout=3000), "DefHeaders exhaustive")
+    if quick:
+        core.require_coverage(hres, ["AddParam", "FinishHeader"], "DefHeaders")
     check.add_tlc(("exhaustive+emit:" if quick else "exhaustive:") + hcfg, hres)
     _sensitivity("DefHeaders", "DefHeaders.strict.cfg", "HeaderViewsAgreeStrict")
     _sensitivity("DefHeaders", "DefHeaders.bug.cfg", "HeaderViewsAgree")
@@ -610,12 +621,12 @@ def run(check: core.Check) -> None:
     if not hcases:
         raise core.MachineryError("TLC emitted no def headers")
     check.cov["model_cases_headers"] = len(hcases)
-    hlimit = 300 if quick else 2500
+    hlimit = 300 if quick else 1500
     exhaustive_h = len(hcases) <= hlimit
     if not exhaustive_h:
         hcases = rnd.sample(hcases, hlimit)
     ch = judge_headers(check, hcases, "tlc-exhaustive", "DefHeadersTrace.cfg" if quick else "DefHeadersTraceBig.cfg")
-    hnum = 4 if quick else 150
+    hnum = 4 if quick else 50
     hsim = core.require_ok(
         core.run_tlc("DefHeadersEmit", "DefHeaders.sim.cfg", workers=1, simulate=f"num={hnum}", depth=8, seed=check.seed + 17, timeout=1800),
         "DefHeaders simulate",
